@@ -30,6 +30,13 @@ ASSUMPTIONS = ["lmfit's optimiser is symmetric under a global sign flip of "
                "data, amplitudes and amplitude bounds"]
 
 MUTANTS = [
+    ("blank pixels filled with -inf before both curvature filters",
+     "AegeanTools/source_finder.py",
+     "            peaks = maximum_filter(self.global_data.img, size=3)\n"
+     "            troughs = minimum_filter(self.global_data.img, size=3)",
+     "            peaks = maximum_filter(np.nan_to_num(self.global_data.img, nan=-np.inf), size=3)\n"
+     "            troughs = minimum_filter(np.nan_to_num(self.global_data.img, nan=-np.inf), size=3)",
+     "C13-R10"),
     ("polarity filter tests the integrated flux",
      "AegeanTools/source_finder.py",
      "                    if (src.peak_flux > 0 and nopositive) or (\n"
@@ -307,6 +314,7 @@ def run(ctx):
     r6_guards(ctx, prog)
     r7_error_symmetry(ctx, prog)
     r8_island_peak(ctx, prog)
+    r10_curvature(ctx, prog)
     # load_globals subtracts the background IN PLACE from the array the
     # loader returned: every search must get a fresh array (shared with
     # C20-R7)
@@ -768,6 +776,53 @@ def r7_error_symmetry(ctx, prog):
                   "a term is selected by the sign of a flux-dependent "
                   "quantity" % tuple(res), node=body[idx])
     ctx.floor("C13-R7", n, 1, "err_int_flux computations interpreted")
+
+
+def r10_curvature(ctx, prog, rule="C13-R10"):
+    """local maxima and local minima are found by mirror-image filters"""
+    ctx.rule(rule, "summit candidates are sign symmetric: wherever the "
+             "curvature map is built, scipy's maximum_filter (peaks) and "
+             "minimum_filter (troughs) are applied to the SAME operand with "
+             "the same window, and that operand carries no one-sided "
+             "replacement of blank pixels (nan -> -inf suits the maximum "
+             "filter only: next to a blank pixel no trough is found, so a "
+             "negative source there is lost while its mirror image is kept)")
+    n = 0
+    for q, fi in sorted(prog.functions.items()):
+        if not fi.module.endswith("source_finder"):
+            continue
+        mx = [c for c in walk_no_nested(fi.node) if isinstance(c, ast.Call)
+              and norm(c.func).split(".")[-1] == "maximum_filter"]
+        mn = [c for c in walk_no_nested(fi.node) if isinstance(c, ast.Call)
+              and norm(c.func).split(".")[-1] == "minimum_filter"]
+        if not mx and not mn:
+            continue
+        n += 1
+        ok = len(mx) == len(mn)
+        why = "%d maximum_filter call(s), %d minimum_filter call(s)" % (
+            len(mx), len(mn))
+        for a, b in zip(mx, mn):
+            ta = [norm(x, 400) for x in a.args] + sorted(
+                "%s=%s" % (k.arg, norm(k.value)) for k in a.keywords)
+            tb = [norm(x, 400) for x in b.args] + sorted(
+                "%s=%s" % (k.arg, norm(k.value)) for k in b.keywords)
+            if ta != tb:
+                ok = False
+                why = "the two filters see different operands / windows: " \
+                    "%s vs %s" % (ta[0][:60], tb[0][:60])
+            fills = [x for c in (a, b) for x in ast.walk(c)
+                     if isinstance(x, ast.Call) and
+                     norm(x.func).split(".")[-1] in ("nan_to_num", "where",
+                                                     "filled") or
+                     isinstance(x, ast.Attribute) and x.attr in ("inf",
+                                                                 "Inf")]
+            if fills:
+                ok = False
+                why = "blank pixels are replaced by a value with a sign " \
+                    "(%s) before the filters" % norm(fills[0], 50)
+        ctx.check(rule, fi, "mirror-image peak / trough filters in " +
+                  fi.name, ok, why, node=(mx or mn)[0])
+    ctx.floor(rule, n, 2, "functions building a curvature map")
 
 
 def r8_island_peak(ctx, prog, rule="C13-R8", polarity=False):
